@@ -61,6 +61,7 @@ func (f FileState) String() string {
 
 type Outcome struct {
 	SmallDisk bool // the working directory really was a file system of the scenario's capacity
+	DiskFree  int64 // free blocks of that file system when the process had ended (kernel's statfs), -1 otherwise
 	Exit     int
 	Signal   int
 	TimedOut bool
@@ -346,7 +347,7 @@ func (w *World) Run(sc *Scenario, o RunOpts) *Outcome {
 	}
 	done := make(chan error, 1)
 	go func() { done <- cmd.Wait() }()
-	out := &Outcome{SmallDisk: smallDisk}
+	out := &Outcome{SmallDisk: smallDisk, DiskFree: -1}
 	runPeer := func(when string) {
 		pc := exec.Command(w.YQ, sc.Peer.Argv...)
 		pc.Dir = work
@@ -461,6 +462,13 @@ func (w *World) Run(sc *Scenario, o RunOpts) *Outcome {
 		}
 	}
 	out.Files = snapshotDir(work)
+	if smallDisk {
+		var st syscall.Statfs_t
+		if err := syscall.Statfs(work, &st); err != nil {
+			harnessPanic("statfs %v", err)
+		}
+		out.DiskFree = int64(st.Bfree)
+	}
 	if ents, err := os.ReadDir(tmp); err == nil {
 		for _, e := range ents {
 			out.TmpLeft = append(out.TmpLeft, e.Name())
